@@ -3,8 +3,12 @@ package worker
 import (
 	"testing"
 	"testing/synctest"
+	"time"
+
+	utilruntime "k8s.io/apimachinery/pkg/util/runtime"
 
 	"kgsim/sim"
+	"kgsim/worlds/gw"
 	"kgsim/worlds/store"
 	"kgsim/worlds/tb"
 )
@@ -13,6 +17,17 @@ import (
 // exits from inside the bubble once fn returns.
 func inBubble(t *testing.T, single bool, fn func()) {
 	synctest.Test(t, func(t *testing.T) {
+		// The bubble's clock starts at 2000-01-01. Package-level values captured
+		// at process start (e.g. the error back-off of apimachinery's
+		// HandleError) hold real timestamps, and "time since then" would be
+		// negative. Jump to a fixed instant after any real date.
+		time.Sleep(time.Until(time.Date(2030, 1, 1, 0, 0, 0, 0, time.UTC)))
+		// apimachinery's HandleError rate limiter sleeps 1 ms while holding a
+		// mutex; a second goroutine then blocks on that mutex non-durably and
+		// the bubble's clock can never advance. Keep the logging handler only.
+		if len(utilruntime.ErrorHandlers) > 1 {
+			utilruntime.ErrorHandlers = utilruntime.ErrorHandlers[:1]
+		}
 		fn()
 		if single && exitNow != nil {
 			exitNow()
@@ -21,6 +36,11 @@ func inBubble(t *testing.T, single bool, fn func()) {
 }
 
 func init() {
+	gwReg := func(prefix string, fn func(*sim.Run)) {
+		register("gw", prefix, true, func(t *testing.T, r *sim.Run) { gw.PreBubble(); inBubble(t, true, func() { fn(r) }) })
+	}
+	gwReg("c03", gw.RunC03)
+	register("gw", "smoke", true, func(t *testing.T, r *sim.Run) { gw.PreBubble(); inBubble(t, true, func() { gw.RunSmoke(r) }) })
 	register("store", "c19", true, func(t *testing.T, r *sim.Run) { inBubble(t, true, func() { store.RunC19(r) }) })
 	register("tb", "c06", false, func(t *testing.T, r *sim.Run) { inBubble(t, false, func() { tb.RunC06(r) }) })
 }
